@@ -67,6 +67,15 @@ def menu(tier):
             scn.append(S.mk(f'{inp}/adversarial/A1s1/{strat}/j2/{ms}', inp,
                             ('adversarial', ), strat, 2, S.MUTATOR_SETS[ms],
                             budget=1, accept=1))
+    # the symbol tables are rebuilt while a task generator may still run
+    for strat in ('hierarchical', 'hybrid'):
+        for j in (1, 2):
+            for eager in (False, True):
+                scn.append(S.mk(
+                    f'table-window/{strat}/j{j}/' +
+                    ('eager' if eager else 'fill'), S.WINDOW_INPUT,
+                    S.WINDOW_MODEL, strat, j, S.WINDOW_ARGS, budget=b,
+                    eager_pull=eager))
     for x in scn:
         if x.get('budget', 0) > 0 and x['model'][0] != 'adversarial':
             x['prune'] = True
